@@ -28,6 +28,7 @@ CODES = {
     13: "nodes were added beyond the resolved canary replicas",
     14: "a canary list shorter than the resolved replicas was written and the reconcile reported no error",
     18: "a canary list shorter than the resolved replicas was written although a valid candidate node was left out",
+    19: "canary nodes were added although the List of the pods (restart counts) or of the nodes had failed",
     16: "canary replicas did not resolve but a canary status was written",
     17: "a node with more pod restarts was preferred to a valid candidate with fewer",
     111: "known finding D9: a canary node that vanished or became unfit stays in status.canary.nodes while the count matches",
@@ -94,6 +95,11 @@ def gen_cases(rng, stats, n, shrink=0.15):
                                                   {"matchExpressions": [{"key": "zone", "operator": "In", "values": []}]}])
         # make sure the failed condition is rare here (a failed canary has no list)
         nodes = [o for o in c["objects"] if o["kind"] == "Node"]
+        if rng.random() < 0.2 and not c["ops"][0].get("faults"):
+            # the List of the pods (restart counts) or of the nodes fails inside the selection: the error is reported, the
+            # list stays as it was - nothing is selected blindly
+            c["ops"][0] = dict(c["ops"][0], faults={"list_fail": [rng.choice(["Pod", "Pod", "Node"])]})
+            wprop.bump(stats, "a List fails inside the selection", "yes")
         ops = [c["ops"][0]]
         if nodes and rng.random() < 0.7:
             # later churn on a (possibly selected) node, then reconcile again
